@@ -1,13 +1,215 @@
-(* Props/C20.v — property C20 (work in progress: vector part) *)
+(* Props/C20.v — property C20: repr never fails and never misstates shape, dtype or data.
+   Statements only; every proof is [exact <lemma>] (refutations: a concrete witness).
+
+   [repr_vector glob v] / [repr_table glob t] (Model/Repr.v) return [Exn] when display.py would
+   raise, else the structured repr.  [glob] is the global row budget (set_repr_rows), [trepr_rows]
+   the per-table override; [half] is the number of rows allowed at each end; the column budget is
+   MAX_HEAD_COLS at each end.  Spec/Repr.v says what must be shown ([expected_rows],
+   [expected_cols], [shown_types], [listed_types], [shown_names]) and states the two invariants the
+   formatter relies on: C03 (elements belong to the column's dtype: [well_typed_vec]) and C02
+   (tables are rectangular). *)
 From Coq Require Import List Bool Arith ZArith.
 From Serif Require Import Base.PyVal Model.Repr Spec.Repr Proofs.Repr.
 Import ListNotations.
 
-Theorem C20_vector_footer_truthful : forall glob v r,
+(* ------------------------------------------------------------------ totality *)
+
+(* The full statement: repr never raises on a well-typed vector / rectangular well-typed table,
+   whatever the values and the budgets. *)
+Definition C20_repr_total_statement : Prop :=
+  (forall glob v, well_typed_vec v -> repr_vector glob v <> Exn) /\
+  (forall glob t, rectangular t -> (forall c, In c (tcols t) -> well_typed_vec c) ->
+                  repr_table glob t <> Exn).
+
+(* It is FALSE of the code (NEW-C20-1): an element that is itself a serif Vector makes
+   `v == '...'` elementwise and the truth value of the result raises. *)
+Theorem C20_repr_total_statement_refuted : ~ C20_repr_total_statement.
+Proof.
+  intros [H _].
+  apply (H 12%Z (mkVec None (Some (mkD (KOther 20) false)) [Some VVector; Some VVector])).
+  - intros s _. exact I.
+  - reflexivity.
+Qed.
+Print Assumptions C20_repr_total_statement_refuted.
+
+(* What holds: with no Vector among the elements, repr never raises — for NaN, +-inf, None,
+   empty, any length, any width, any names (str or not), any budget (negative, zero, odd). *)
+Theorem C20_repr_total_partial :
+  (forall glob v, well_typed_vec v -> no_vector_elements v -> repr_vector glob v <> Exn) /\
+  (forall glob t, rectangular t ->
+                  (forall c, In c (tcols t) -> well_typed_vec c /\ no_vector_elements c) ->
+                  repr_table glob t <> Exn).
+Proof. exact (conj vector_total table_total). Qed.
+Print Assumptions C20_repr_total_partial.
+
+(* ------------------------------------------------------------------ purity *)
+
+(* repr, as an operation on (global budget, object), hands the state back unchanged *)
+Theorem C20_repr_pure :
+  (forall st, fst (repr_vector_st st) = st) /\ (forall st, fst (repr_table_st st) = st).
+Proof. exact (conj repr_vector_pure repr_table_pure). Qed.
+Print Assumptions C20_repr_pure.
+
+(* ------------------------------------------------------------------ footer *)
+
+(* vectors: the footer states the true element count and the true dtype token (kind name, and
+   "?" iff nullable: the token IS the schema); "# empty" is only said of an empty vector *)
+Theorem C20_footer_truthful_vector : forall glob v r,
   repr_vector glob v = Ret r ->
   match r with
   | VREmpty => vdata v = []
   | VRLines _ _ count dt => count = List.length (vdata v) /\ dt = tok_of (vdtype v)
   end.
 Proof. exact vector_footer. Qed.
-Print Assumptions C20_vector_footer_truthful.
+Print Assumptions C20_footer_truthful_vector.
+
+(* tables: rows x cols are the true ones; a [dtype] header row, when present, carries the true
+   dtype of every shown column; "<mixed>" only when that row is present; a single token only when
+   every column has it; a list is the true list (first and last 5 around a gap when wide) *)
+Theorem C20_footer_truthful_table : forall glob t r,
+  repr_table glob t = Ret r ->
+  match r with
+  | TREmpty => tcols t = []
+  | TRTensor => first_cell_has_shape (tcols t) = true
+  | TRTable _ types _ frows fcols ftys =>
+      frows = t_nrows t /\ fcols = t_ncols t /\
+      (forall tr, types = Some tr -> tr = shown_types t) /\
+      match ftys with
+      | FMixed => types = Some (shown_types t)
+      | FOne d => forall c, In c (tcols t) -> tok_of (vdtype c) = d
+      | FList l => l = listed_types t
+      end
+  end.
+Proof. exact table_footer. Qed.
+Print Assumptions C20_footer_truthful_table.
+
+(* ------------------------------------------------------------------ preview *)
+
+(* The full statement: the body shows exactly the first and last [half] rows around one
+   ellipsis when the data is longer than 2 * half, and every row otherwise. *)
+Definition C20_preview_exact_statement : Prop :=
+  forall glob v hdr body count dt,
+    repr_vector glob v = Ret (VRLines hdr body count dt) ->
+    map row_of body = expected_rows (half glob) (List.length (vdata v)).
+
+(* FALSE of the code: a data cell equal to the string '...' takes the marker's branch
+   (`if v == '...'`) and is printed as the marker — in an object column without its quotes. *)
+Theorem C20_preview_exact_statement_refuted : ~ C20_preview_exact_statement.
+Proof.
+  intros H.
+  specialize (H 12%Z (mkVec None (Some (mkD KObject false)) [Some VIntLike; Some (VStr true)])
+                false [IRow 0 FmtStr; IEll] 2 (mkD KObject false) eq_refl).
+  discriminate H.
+Qed.
+Print Assumptions C20_preview_exact_statement_refuted.
+
+(* What holds: when no cell is the string '...' — for every budget, incl. negative, 0, 1, odd *)
+Theorem C20_preview_exact_vector_partial : forall glob v hdr body count dt,
+  repr_vector glob v = Ret (VRLines hdr body count dt) -> no_dots_elements v ->
+  map row_of body = expected_rows (half glob) (List.length (vdata v)).
+Proof. exact vector_preview. Qed.
+Print Assumptions C20_preview_exact_vector_partial.
+
+(* tables: one body column per column of the column budget (the "..." column in the middle when
+   wider than 2 * MAX_HEAD_COLS), each showing exactly the expected rows under the budget in
+   force (the per-table override when set, else the global one) *)
+Theorem C20_preview_exact_table_partial : forall glob t disp types body fr fc ft,
+  repr_table glob t = Ret (TRTable disp types body fr fc ft) ->
+  rectangular t -> (forall c, In c (tcols t) -> no_dots_elements c) ->
+  exists ls,
+    body = (if cols_truncated (t_ncols t)
+            then insert_at MAX_HEAD_COLS
+                           (CDots (List.length (expected_rows (table_half glob t) (t_nrows t))))
+                           (map CItems ls)
+            else map CItems ls) /\
+    List.length ls = List.length (expected_cols (t_ncols t)) /\
+    Forall (fun l => map row_of l = expected_rows (table_half glob t) (t_nrows t)) ls.
+Proof. exact table_preview. Qed.
+Print Assumptions C20_preview_exact_table_partial.
+
+(* what the budget means: never more than `limit` rows are shown; data longer than the limit is
+   cut; data shorter than the limit is shown whole; set_repr_rows(None) restores 12 = 6 + 6 *)
+Theorem C20_limit_semantics : forall (L : Z) (n : nat),
+  ((Z.max L 0 < Z.of_nat n)%Z -> half L * 2 < n) /\
+  ((Z.of_nat n < L)%Z -> n <= half L * 2) /\
+  (Z.of_nat (half L * 2) <= Z.max L 0)%Z.
+Proof. exact limit_semantics. Qed.
+Print Assumptions C20_limit_semantics.
+
+(* ------------------------------------------------------------------ headers *)
+
+(* a vector shows its name line iff it has a name other than "" *)
+Theorem C20_headers_are_stored_names_vector : forall glob v hdr body count dt,
+  repr_vector glob v = Ret (VRLines hdr body count dt) ->
+  (hdr = true <-> exists o, vname v = Some o /\ n_is_empty_str o = false).
+Proof. exact vector_header. Qed.
+Print Assumptions C20_headers_are_stored_names_vector.
+
+(* The full statement for tables: the row of names shows the stored name of every shown column,
+   and is left out only when no shown column has a name to show. *)
+Definition C20_headers_statement : Prop :=
+  forall glob t disp types body fr fc ft,
+    repr_table glob t = Ret (TRTable disp types body fr fc ft) ->
+    match disp with
+    | Some row => row = shown_names t
+    | None => forall j, In j (expected_cols (t_ncols t)) -> ~ has_shown_name (col t j)
+    end.
+
+(* FALSE of the code (NEW-C20-2): a column NAMED '...' is taken for the hidden-columns cell *)
+Theorem C20_headers_statement_refuted : ~ C20_headers_statement.
+Proof.
+  intros H.
+  specialize (H 12%Z (mkTbl [mkVec (Some (NStr false true)) (Some (mkD KInt false)) [Some VIntLike]] None)
+                None None [CItems [IRow 0 FmtStr]] 1 1 (FOne (mkD KInt false)) eq_refl 0 (or_introl eq_refl)).
+  apply H. exists (NStr false true). split; reflexivity.
+Qed.
+Print Assumptions C20_headers_statement_refuted.
+
+(* What holds: when no shown column is named '...' *)
+Theorem C20_headers_are_stored_names_table_partial : forall glob t disp types body fr fc ft,
+  repr_table glob t = Ret (TRTable disp types body fr fc ft) ->
+  (forall j, In j (expected_cols (t_ncols t)) -> name_not_dots (col t j)) ->
+  match disp with
+  | Some row => row = shown_names t
+  | None => forall j, In j (expected_cols (t_ncols t)) -> ~ has_shown_name (col t j)
+  end.
+Proof. exact table_headers. Qed.
+Print Assumptions C20_headers_are_stored_names_table_partial.
+
+(* ------------------------------------------------------------------ non-vacuity *)
+
+Example C20_example_vector :
+  let f x := Some (VFloat x) in
+  let v := mkVec (Some (NNonStr false false)) (Some (mkD KFloat true))
+                 [f (FFinite true); f FNan; None; f FPosInf; f (FFinite false); f FNegInf; Some VIntLike] in
+  well_typed_vec v /\ no_vector_elements v /\
+  repr_vector 5%Z v =
+    Ret (VRLines true [IRow 0 FmtFix1; IRow 1 FmtG; IEll; IRow 5 FmtG; IRow 6 FmtFix1] 7 (mkD KFloat true)) /\
+  repr_vector 1%Z v = Ret (VRLines true [IEll] 7 (mkD KFloat true)) /\
+  repr_vector (-3)%Z v = Ret (VRLines true [IEll] 7 (mkD KFloat true)) /\
+  half (set_repr_rows None) = 6.
+Proof.
+  cbv zeta. split; [|split].
+  - intros s Hs. simpl in Hs. unfold fits. simpl.
+    repeat (destruct Hs as [Hs|Hs]; [inversion Hs; exact I|]). destruct Hs.
+  - intros Hs. simpl in Hs. repeat (destruct Hs as [Hs|Hs]; [discriminate|]). destruct Hs.
+  - vm_compute. repeat split.
+Qed.
+
+Example C20_example_table :
+  let c k n := mkVec (Some (NStr false false)) (Some (mkD k n)) [Some VIntLike; None; Some VIntLike] in
+  let t := mkTbl (map (fun j => c (if Nat.eqb j 7 then KFloat else KInt) false) (seq 0 12)) (Some 2%Z) in
+  rectangular t /\
+  repr_table 12%Z t =
+    Ret (TRTable (Some (map HName [0;1;2;3;4] ++ [HEll] ++ map HName [7;8;9;10;11]))
+                 (Some (map (fun _ => Some (mkD KInt false)) [0;1;2;3;4] ++ [None; Some (mkD KFloat false)]
+                        ++ map (fun _ => Some (mkD KInt false)) [8;9;10;11]))
+                 (map (fun _ => CItems [IRow 0 FmtStr; IEll; IRow 2 FmtStr]) [0;1;2;3;4] ++ [CDots 3]
+                  ++ [CItems [IRow 0 FmtFix1; IEll; IRow 2 FmtFix1]]
+                  ++ map (fun _ => CItems [IRow 0 FmtStr; IEll; IRow 2 FmtStr]) [8;9;10;11])
+                 3 12 FMixed).
+Proof.
+  cbv zeta. split.
+  - intros c Hc. simpl in Hc. repeat (destruct Hc as [Hc|Hc]; [subst c; reflexivity|]). destruct Hc.
+  - vm_compute. reflexivity.
+Qed.
